@@ -5,12 +5,14 @@ import (
 	"fmt"
 	"github.com/olive-io/bpmn/v2/pkg/data"
 	"hash/fnv"
+	"io"
 	"reflect"
 	"regexp"
 	"runtime"
 	"sort"
 	"strings"
 	"sync"
+	"sync/atomic"
 	"time"
 	"unicode"
 
@@ -80,7 +82,7 @@ func ProgLines(proc *schema.Process, condRPN map[string]string) []string {
 						}
 					}
 				}
-				out = append(out, fmt.Sprintf("flow %s %s %s %s %s", *id, *x.SourceRef(), *x.TargetRef(), orDash(parent), cond))
+				out = append(out, Canon(fmt.Sprintf("flow %s %s %s %s %s", *id, *x.SourceRef(), *x.TargetRef(), orDash(parent), cond)))
 			default:
 				fn, ok := e.(schema.FlowNodeInterface)
 				if !ok {
@@ -136,6 +138,9 @@ func ProgLines(proc *schema.Process, condRPN map[string]string) []string {
 	}
 	walk(proc, "")
 	sort.Strings(out)
+	for k := range out {
+		out[k] = Canon(out[k])
+	}
 	return out
 }
 
@@ -321,7 +326,7 @@ func (in *Inst) canon(t tracing.ITrace) string {
 	case bpmn.CeaseFlowTrace:
 		return "cease"
 	case bpmn.TaskTrace:
-		id := nodeID(x.GetActivity().Element())
+		id := Canon(nodeID(x.GetActivity().Element()))
 		in.occ[id]++
 		in.reqs = append(in.reqs, &Req{Node: id, Occ: in.occ[id], Trace: x})
 		cancelled := 0
@@ -416,12 +421,63 @@ func Start(xmlText string, vars map[string]any, opts ...bpmn.Option) (*Inst, *sc
 	case 7:
 		xmlText = OtherPrefix(xmlText, "semantic")
 	}
+	// ids are opaque names: a fifth of the documents carry activity and sequence-flow ids that END IN another element's
+	// id (`H__P` next to `P`, `f2__f1` next to `f1`, the shorter one declared first); everything recorded is named by the
+	// part before `__` again (Canon)
+	switch h.Sum32() % 10 {
+	case 1, 5:
+		xmlText = ContainIDs(xmlText)
+	}
 	defs, err := schema.Parse([]byte(xmlText))
 	if err != nil {
 		return nil, nil, fmt.Errorf("parse: %w", err)
 	}
 	in, err := StartDefs(defs, vars, opts...)
 	return in, defs, err
+}
+
+// ContainedIDDocuments counts the documents whose ids were made to contain each other.
+var ContainedIDDocuments int
+
+var (
+	idElemRe = regexp.MustCompile(`<[A-Za-z0-9]+:(task|serviceTask|userTask|scriptTask|sendTask|receiveTask|manualTask|businessRuleTask|callActivity|subProcess|sequenceFlow) id="([^"]+)"`)
+	canonRe  = regexp.MustCompile(`([A-Za-z0-9_]*[A-Za-z0-9])__[A-Za-z0-9_]+`)
+)
+
+// ContainIDs renames every second activity and every second sequence flow (in document order) to `<id>__<id of the one
+// before it>`: the new id ends in the id of an element declared earlier.
+func ContainIDs(xmlText string) string {
+	var acts, flows []string
+	for _, m := range idElemRe.FindAllStringSubmatch(xmlText, -1) {
+		if strings.Contains(m[2], "__") {
+			return xmlText
+		}
+		if m[1] == "sequenceFlow" {
+			flows = append(flows, m[2])
+		} else {
+			acts = append(acts, m[2])
+		}
+	}
+	var pairs []string
+	for _, ids := range [][]string{acts, flows} {
+		for i := 1; i < len(ids); i += 2 {
+			nw := ids[i] + "__" + ids[i-1]
+			pairs = append(pairs, `"`+ids[i]+`"`, `"`+nw+`"`, `>`+ids[i]+`<`, `>`+nw+`<`)
+		}
+	}
+	if len(pairs) == 0 {
+		return xmlText
+	}
+	ContainedIDDocuments++
+	return strings.NewReplacer(pairs...).Replace(xmlText)
+}
+
+// Canon names an element by the id the generator gave it (see ContainIDs).
+func Canon(line string) string {
+	if !strings.Contains(line, "__") {
+		return line
+	}
+	return canonRe.ReplaceAllString(line, "$1")
 }
 
 // OtherPrefixDocuments counts the documents that ran under another namespace prefix.
@@ -481,7 +537,7 @@ func NewInst(defs *schema.Definitions, vars map[string]any, opts ...bpmn.Option)
 		defer close(in.recDone)
 		for t := range in.sub {
 			in.mu.Lock()
-			l := "obs " + in.canon(t)
+			l := "obs " + Canon(in.canon(t))
 			in.lines = append(in.lines, l)
 			if in.lagSub != nil {
 				in.traceLines = append(in.traceLines, l)
@@ -643,17 +699,35 @@ func (in *Inst) AnswerErr(q *Req, mode bpmn.ErrHandleMode, retries int32) bool {
 	in.Op("answer %s %d err %d %d", q.Node, q.Occ, int(mode), retries)
 	q.Done = true
 	var ok bool
+	werr := WorkerError()
 	if mode == 0 {
-		ok = DoWithDeadline(q.Trace, 3*time.Second, bpmn.DoWithErr(fmt.Errorf("boom")))
+		ok = DoWithDeadline(q.Trace, 3*time.Second, bpmn.DoWithErr(werr))
 	} else {
 		ch := make(chan bpmn.ErrHandler, 1)
 		ch <- bpmn.ErrHandler{Mode: mode, Retries: retries}
-		ok = DoWithDeadline(q.Trace, 3*time.Second, bpmn.DoWithErrHandle(fmt.Errorf("boom"), ch))
+		ok = DoWithDeadline(q.Trace, 3*time.Second, bpmn.DoWithErrHandle(werr, ch))
 	}
 	if !ok {
 		in.Note("obs ret do %s %d blocked", q.Node, q.Occ)
 	}
 	return ok
+}
+
+var workerErrNo atomic.Int64
+
+// WorkerError: WHICH error a worker answers with is the worker's business — a plain one, or its own downstream call's
+// timeout / cancellation / end of input wrapped with %w. The instance's context is alive: to the engine they are all
+// the same task error.
+func WorkerError() error {
+	switch workerErrNo.Add(1) % 4 {
+	case 1:
+		return fmt.Errorf("downstream call: %w", context.DeadlineExceeded)
+	case 2:
+		return fmt.Errorf("downstream call: %w", context.Canceled)
+	case 3:
+		return fmt.Errorf("read reply: %w", io.EOF)
+	}
+	return fmt.Errorf("boom")
 }
 
 // Deliver hands an event to the instance under a deadline.
